@@ -56,6 +56,15 @@ def sources(text, root):
     yield 'open-text', lambda: open(p)
     yield 'open-binary', lambda: open(p, 'rb')
     yield 'nonseekable', lambda: NonSeek(io.BytesIO(text.encode()))
+    # a seekable stream whose position is not at the start when the resource is built (a file just written, a stream the caller has read from): the library rewinds it
+    def at(mode, where):
+        f = open(p, mode); f.seek(0, 2) if where == 'end' else f.read(max(1, len(text) // 2)); return f
+    yield 'open-binary-at-end', lambda: at('rb', 'end')
+    yield 'open-text-at-end', lambda: at('r', 'end')
+    yield 'open-binary-read-half', lambda: at('rb', 'half')
+    def just_written():
+        f = tempfile.TemporaryFile('w+b', dir=root); f.write(text.encode()); f.flush(); return f
+    yield 'tempfile-just-written', just_written
     # other encodings: the ASCII bytes of '<!DOCTYPE' do not occur in UTF-16 data; a BOM precedes the declaration
     t16 = text.replace('encoding="UTF-8"', 'encoding="UTF-16"')
     for enc, data in (('utf-16', t16.encode('utf-16')), ('utf-16-be-bom', b'\xfe\xff' + t16.encode('utf-16-be')), ('utf-8-sig', text.encode('utf-8-sig'))):
@@ -92,7 +101,7 @@ def run(tier, seed, open_findings):
                 elif out[0].startswith('OTHER'): prob = 'non-library exception'
                 elif 'TOPSECRET' in out[1]: prob = 'external entity expanded'
                 if prob: fails.append(dict(case=dict(payload=pname, defuse=defuse, source=sname), observed=dict(outcome=out, problem=prob), required='forbidden before any expansion / same tree'))
-        out = [result('C13.instance_payloads', f'{len(payloads(secret, 10))} payloads x 4 defuse modes x 21 source kinds (text, bytes, paths, streams; UTF-8, UTF-8 with BOM, UTF-16 LE/BE with BOM) (instance role)', n, fails, exhaustive=True,
+        out = [result('C13.instance_payloads', f'{len(payloads(secret, 10))} payloads x 4 defuse modes x 25 source kinds (text, bytes, paths, streams, streams positioned past the prolog; UTF-8, UTF-8 with BOM, UTF-16 LE/BE with BOM) (instance role)', n, fails, exhaustive=True,
                       samples=[dict(payload='external', defuse='always', source='nonseekable')])]
         # schema roles: main schema and included schema carrying a declaration
         sfails = []; m = 0
